@@ -20,12 +20,13 @@ type arm struct {
 }
 
 type dispatchView struct {
-	f     *ssa.Function
-	arms  map[string]*arm
-	table bool        // table form
-	lk    *ssa.Lookup // table form: the lookup
-	site  *ssa.Call   // table form: the call of the looked-up function
-	sel   *ssa.Call   // selector form: the call of the function that picks the handler (a switch returning function values)
+	f      *ssa.Function
+	arms   map[string]*arm
+	table  bool        // table form
+	lk     *ssa.Lookup // table form: the lookup
+	site   *ssa.Call   // table form: the call of the looked-up function
+	sel    *ssa.Call   // selector form: the call of the function that picks the handler (a switch returning function values)
+	objSel bool        // selector form: the selector hands back a handler object; the call invokes a method of it
 }
 
 // armCall is one handler invocation of an arm, with its arguments rendered in the dispatcher's frame.
@@ -177,7 +178,51 @@ func (c *Ctx) dispatch(f *ssa.Function, scrut func(path string) bool) *dispatchV
 		}
 		dv.table, dv.site, dv.sel, dv.arms = true, cl, sel, arms
 	})
+	if dv.sel != nil {
+		return dv
+	}
+	// object selector form: h := pick(key); h.Method(args...) where pick switches on the key and returns, per case, a
+	// handler object under the interface the method is invoked on
+	forEachInstr(f, func(in ssa.Instruction) {
+		cl, ok := in.(*ssa.Call)
+		if !ok || !cl.Call.IsInvoke() || dv.sel != nil {
+			return
+		}
+		sel, _ := cl.Call.Value.(*ssa.Call)
+		if sel == nil {
+			return
+		}
+		g := sel.Call.StaticCallee()
+		if g == nil || !inModule(g) || g.Blocks == nil || g.Signature.Results().Len() != 1 {
+			return
+		}
+		senv := c.calleeEnv(&sel.Call, g, nil)
+		arms := map[string]*arm{}
+		for k, blk := range c.caseTable(g, senv, scrut) {
+			for _, r := range returnsOf(g) {
+				if len(r.Results) != 1 || !blk.Dominates(r.Block()) {
+					continue
+				}
+				if m := c.objMethod(r.Results[0], cl); m != nil {
+					arms[k] = &arm{key: k, fn: m, bound: true}
+				}
+			}
+		}
+		if len(arms) == 0 {
+			return
+		}
+		dv.table, dv.site, dv.sel, dv.arms, dv.objSel = true, cl, sel, arms, true
+	})
 	return dv
+}
+
+// objMethod: v is a concrete value put under an interface; the method of it that the invoke call cl runs.
+func (c *Ctx) objMethod(v ssa.Value, cl *ssa.Call) *ssa.Function {
+	mi, ok := v.(*ssa.MakeInterface)
+	if !ok || !cl.Call.IsInvoke() {
+		return nil
+	}
+	return c.Prog.LookupMethod(mi.X.Type(), cl.Call.Method.Pkg(), cl.Call.Method.Name())
 }
 
 func stripConv(v ssa.Value) ssa.Value {
@@ -276,6 +321,30 @@ func (c *Ctx) tableGuards(dv *dispatchView) (foundOnly, callRequired bool) {
 		// dispatcher goes on only when the selector succeeded
 		g := dv.sel.Call.StaticCallee()
 		inCase := true
+		if dv.objSel {
+			// every object the selector hands back is one of the cases'; "none" (nil) is refused before the method is invoked
+			hasNil := false
+			for _, r := range returnsOf(g) {
+				if k, isK := r.Results[0].(*ssa.Const); isK && k.IsNil() {
+					hasNil = true
+					continue
+				}
+				hit := false
+				for _, a := range dv.arms {
+					if m := c.objMethod(r.Results[0], dv.site); m != nil && m == a.fn {
+						hit = true
+					}
+				}
+				inCase = inCase && hit
+			}
+			if hasNil {
+				nilRefused, _, _ := c.Guard(dv.f, nil, cmpReject("no handler selected: refused", token.EQL, pathIs(c.Path(dv.sel, nil)), pathIs("nil")), func(i ssa.Instruction) bool { return i == ssa.Instruction(dv.site) })
+				inCase = inCase && nilRefused
+			}
+			foundOnly = inCase
+			callRequired, _, _ = c.Guard(dv.f, nil, &GCheck{Name: "handler call succeeded", NoDescend: true, MatchCall: func(c *Ctx, call *ssa.Call, env Env) bool { return call == dv.site }}, nil)
+			return
+		}
 		for _, r := range returnsOf(g) {
 			if !maySucceed(r) {
 				continue
